@@ -1,0 +1,22 @@
+//go:build verif
+
+package memory
+
+// Contracts for the snesvc verifier (/verif). Comment-only; compiled only with -tags verif.
+
+//@ func NewRAM
+//@   property C11
+//@   ensures len(ret1.data) == len(data) && ret1.offset == offset
+
+//@ func (RAM).Read
+//@   property C11
+//@   requires address-m.offset < uint32(len(m.data)) && len(m.data) <= 0x1000000
+//@   ensures ret1 == m.data[address-m.offset]
+//@   assigns nothing
+
+//@ func (RAM).Write
+//@   property C11
+//@   requires address-m.offset < uint32(len(m.data)) && len(m.data) <= 0x1000000
+//@   ensures m.data[address-m.offset] == value
+//@   ensures all(j, uint32, j < uint32(len(m.data)) && j != address-m.offset ==> m.data[j] == old(m.data[j]))
+//@   assigns m.data
